@@ -8,16 +8,45 @@ def endianOf : String → Option Endian
   | "be" => some .big | "le" => some .little | _ => none
 
 /-- case: `<kind> <be|le> <hexbuf> <pos>` with kind ∈ u8 u16 u32 u64 i8 i16 i32 i64,
-    or `bv <len> <hexbuf> <pos>` -/
+    or `bv <len> <hexbuf> <pos>` (`len` decimal, the whole usize range 0 … 2^64-1).
+    A kind prefixed with `v` runs on a restricted view (3 bytes before, 2 after); an optional fifth word
+    `@l.t` or `@l₁.t₁/l₂.t₂/…` (outermost first) runs on a chain of nested RestrictViews whose innermost window is
+    exactly `hexbuf`, view j cutting `l_j` bytes before and `t_j` bytes after its window. -/
 def stripV (ws : List String) : List String :=
   match ws with
   | k :: rest => (if k.startsWith "v" then (k.drop 1).toString else k) :: rest
   | [] => []
 
-def model (line : String) : String :=
+def usizeMax : Nat := 2 ^ 64 - 1
+
+/-- the fifth word: a non-empty chain of `lead.trail` pairs -/
+def viewSpec (w : String) : Option (List (Nat × Nat)) :=
+  if w.startsWith "@" then
+    ((w.drop 1).toString.splitOn "/").mapM fun p =>
+      match p.splitOn "." with
+      | [a, b] => match a.toNat?, b.toNat? with
+        | some a, some b => some (a, b)
+        | _, _ => none
+      | _ => none
+  else none
+
+/-- The property-level content of a case: where the buffer of the case sits inside a larger allocation is not an
+    observable (C17: a view behaves like a copy of its window), so model and oracle read the first four words
+    only, after checking that the view word is well formed. -/
+def core (line : String) : List String :=
   match stripV (words line) with
+  | [a, b, c, d, v] => if (viewSpec v).isSome then [a, b, c, d] else []
+  | ws => ws
+
+def lenOf (w : String) : Option Nat :=
+  match w.toNat? with
+  | some n => if n ≤ usizeMax then some n else none
+  | none => none
+
+def model (line : String) : String :=
+  match core line with
   | ["bv", len, hex, pos] =>
-    match len.toNat?, bytesOfHex hex, pos.toNat? with
+    match lenOf len, bytesOfHex hex, pos.toNat? with
     | some len, some s, some i => showRes hexOfBytes (byteVecP len s i)
     | _, _, _ => "bad-case"
   | [kind, e, hex, pos] =>
@@ -38,9 +67,9 @@ def model (line : String) : String :=
 
 /-- the oracle: the spec's denotation of the window, independent of the model -/
 def expected (line : String) : String :=
-  match stripV (words line) with
+  match core line with
   | ["bv", len, hex, pos] =>
-    match len.toNat?, bytesOfHex hex, pos.toNat? with
+    match lenOf len, bytesOfHex hex, pos.toNat? with
     | some len, some s, some i =>
       match BinSpec.window s i len with
       | some bs => s!"ok {hexOfBytes bs} {i} {i+len} {i+len}"
@@ -63,12 +92,56 @@ def expected (line : String) : String :=
 
 def judge (case impl : String) : String :=
   let e := expected case
-  if e == impl.trimAscii.toString then "ok" else s!"bad value expected={e}"
+  let got := impl.trimAscii.toString
+  if e == got then "ok"
+  else if got.startsWith "panic" || got.startsWith "crash" || got.startsWith "hang" then
+    s!"bad panic expected={e}"      -- C19 promises a value or end-of-buffer, never a panic
+  else s!"bad value expected={e}"
 
 def kinds : List (String × Nat) :=
   [("u8",1),("u16",2),("u32",4),("u64",8),("i8",1),("i16",2),("i32",4),("i64",8)]
 
+/-- the view word of a case (with its leading blank); `[]` = the plain buffer -/
+def showView (v : List (Nat × Nat)) : String :=
+  if v.isEmpty then "" else " @" ++ "/".intercalate (v.map fun (l, t) => s!"{l}.{t}")
+
+/-- absolute offset of cursor 0 of the innermost window inside the allocation -/
+def leadSum (v : List (Nat × Nat)) : Nat := (v.map (·.1)).foldl (· + ·) 0
+
+/-- plain buffer, windows with start 0 / start > 0 / at the very end of the allocation, nested views -/
+def views : List (List (Nat × Nat)) :=
+  [[], [(1, 0)], [(3, 2)], [(0, 4)], [(7, 0)], [(0, 0)], [(2, 1), (1, 1)], [(0, 0), (5, 3)], [(1, 2), (2, 0), (3, 1)]]
+
+/-- cursor 0, 1, mid, end-1, end of a buffer of `l` bytes -/
+def positions (l : Nat) : List Nat := ([0, 1, l / 2, l - 1, l].filter (· ≤ l)).eraseDups
+
+def patBuf (l : Nat) : Bytes := (List.range l).map fun j => UInt8.ofNat (0x81 + 17 * j)
+
+def around (c : Nat) : List Nat := ([c - 2, c - 1, c, c + 1, c + 2].filter (· ≤ usizeMax)).eraseDups
+
+/-- byte-vector lengths from the whole usize range, seen from absolute offset `abs` with `rem` bytes left:
+    usize::MAX - k for k = 0..16 and k = abs ± 2 (abs + len wraps iff k < abs), 2^63 ± 2, 2^32 ± 2, 2^31 ± 2,
+    rem - 1 … rem + 2, 0 -/
+def hugeLens (abs rem : Nat) : List Nat :=
+  ((List.range 17).map (usizeMax - ·) ++ (around abs).map (usizeMax - ·)
+    ++ around (2 ^ 63) ++ around (2 ^ 32) ++ around (2 ^ 31)
+    ++ [0, rem - 1, rem, rem + 1, rem + 2]).eraseDups
+
 def gen (seed n : Nat) (tier : String) (emit : String → IO Unit) : IO Unit := do
+  -- ByteVecP: lengths from the whole usize range at every cursor position, on plain buffers and inside
+  -- (nested) restricted views with zero and non-zero start
+  for v in views do
+    for l in [0, 1, 2, 3, 8, 20] do
+      for pos in positions l do
+        for len in hugeLens (leadSum v + pos) (l - pos) do
+          emit s!"bv {len} {hexOfBytes (patBuf l)} {pos}{showView v}"
+  -- the fixed-width parsers at the same cursor positions inside the same windows
+  for v in views do
+    for (k, w) in kinds do
+      for e in ["be", "le"] do
+        for l in [0, 1, w - 1, w, w + 1, 2 * w + 1].eraseDups do
+          for pos in positions l do
+            emit s!"{k} {e} {hexOfBytes (patBuf l)} {pos}{showView v}"
   -- exhaustive 8-bit patterns, every remaining-length 0..1, both kinds
   for b in List.range 256 do
     for k in ["u8", "i8"] do
@@ -119,11 +192,36 @@ def gen (seed n : Nat) (tier : String) (emit : String → IO Unit) : IO Unit := 
     r := r6
     emit s!"bv {bl} {hexOfBytes s} {pos}"
     emit s!"vbv {bl} {hexOfBytes s} {pos}"
+    -- a random chain of views, a random length from the far end of the usize range (around the wrap point
+    -- usize::MAX - absolute offset), around a power of two, around `remaining`, or anywhere in 0 … 2^64-1
+    let (depth, r7) := r.nat 4
+    let mut vw : List (Nat × Nat) := []
+    r := r7
+    for _ in List.range depth do
+      let (l, ra) := r.nat 6
+      let (t, rb) := ra.nat 4
+      r := rb
+      vw := vw ++ [(l, t)]
+    let abs := leadSum vw + pos
+    let (cls, r8) := r.nat 5
+    let (d, r9) := r8.nat 5
+    let (x, r10) := r9.next
+    let (pw, r11) := r10.pick [31, 32, 63, 64, 16, 8]
+    r := r11
+    let hl := match cls with
+      | 0 => usizeMax - (abs + d - 2)
+      | 1 => min usizeMax (2 ^ pw + d - 2)
+      | 2 => len - pos + d - 1
+      | 3 => usizeMax - x.toNat % 64
+      | _ => x.toNat
+    emit s!"bv {hl} {hexOfBytes s} {pos}{showView vw}"
+    emit s!"{k} {e} {hexOfBytes s} {pos}{showView vw}"
 
 /-- non-trivial: a successful multi-byte decode or a short-buffer failure at a non-zero cursor -/
 def nontrivial (line : String) : Bool :=
   match words line with
   | [k, _, hex, pos] => k != "u8" && (hex.length ≥ 4 || pos != "0")
+  | [k, _, hex, pos, _] => k != "u8" && (hex.length ≥ 4 || pos != "0")
   | _ => false
 
 def driver : PropDriver := { gen, model, judge, nontrivial }
